@@ -202,7 +202,9 @@ def dereference_rule(repo: Repo, rep: Report, rid: str) -> None:
               rid, f"{wr.key}:unchanged", "address written back unchanged", "Pointer._write alters the address before writing", wr.loc())
     new = repo.func("types/pointer.py", "Pointer.__new__")
     st = {norm(s.targets[0]): norm(s.value) for s in walk_body(new.node.body) if isinstance(s, ast.Assign) and isinstance(s.targets[0], ast.Attribute)}
-    rep.check(st.get("obj._stream") == new.params[2] and st.get("obj._context") == new.params[3] and st.get("obj._value") == "None", rid,
+    rets_new = [r for r in walk_body(new.node.body) if isinstance(r, ast.Return) and isinstance(r.value, ast.Name)]
+    obj = rets_new[-1].value.id if rets_new else "obj"  # the object under construction is whatever __new__ returns
+    rep.check(st.get(f"{obj}._stream") == new.params[2] and st.get(f"{obj}._context") == new.params[3] and st.get(f"{obj}._value") == "None", rid,
               f"{new.key}:fields", "stores stream, context; cache empty", f"Pointer.__new__ stores {st}", new.loc())
 
 
